@@ -1,6 +1,7 @@
 import YardlProofs.Rules
 import YardlGenerated.Pipeline
 import Props.C11
+import YardlProofs.Topo
 
 /-!
 # C09 — The language rules are enforced wherever a violation occurs
@@ -76,5 +77,12 @@ theorem import_and_version_errors_returned :
     (∀ r ∈ calls_validatePackage, r.2.1 = "returned") ∧ (∀ r ∈ calls_parsePackageNamespaces, r.2.1 = "returned") ∧
     ("parsePackageNamespaces" ∈ calls_parsePackageNamespaces.map (·.1)) :=
   ⟨C11.nested_errors_propagate.1, C11.nested_errors_propagate.2.2.1, C11.nested_errors_propagate.2.2.2.2⟩
+
+/-- a reference cycle through a written definition is rejected however it is closed — `deps` lists every
+    same-namespace definition mentioned anywhere in a definition's body, including inside the type
+    arguments of local or imported generics (`Topo.sort` = topologicalSortTypes) -/
+theorem reference_cycle_is_rejected (deps : Topo.Deps) (fuel : Nat) (written : List Nat) (n : Nat) (hn : n ∈ written)
+    (hc : Topo.Path deps n n) : Topo.sort deps fuel written = none :=
+  Topo.cycle_is_rejected deps fuel written n hn hc
 
 end Yardl.C09
